@@ -219,6 +219,20 @@ func c05Gen(o *vk.Out) mgrIn {
 		return in
 	}
 	if r.Intn(12) == 0 {
+		// the suspicious-master guard with the crash flag: the manager cannot reach the master, the master's own record is good
+		// and says "restarted after a crash", resetup_crashed_hosts is on, the replicas replicate: nothing is filed, nothing repaired
+		n := 3 + r.Intn(2)
+		in := mgrIn{Master: "h1", Iter: 3 + r.Intn(2), Gap: []int{2, 5}[r.Intn(2)], LockLostAt: -1,
+			Cfg: mgrCfg{Failover: true, Delay: []int{0, 3}[r.Intn(2)], Cooldown: 0, Timeout: 300, MaxAttempts: 3, ResetupCrashed: true, SemiSync: r.Intn(2) == 0, DisableSSOnMaint: true}}
+		for i := 1; i <= n; i++ {
+			in.Nodes = append(in.Nodes, mgrNode{})
+			in.Active = append(in.Active, fmt.Sprintf("h%d", i))
+		}
+		in.Nodes[0].Cut, in.Nodes[0].Health = true, "crash"
+		in.MgrHost = 2
+		return in
+	}
+	if r.Intn(12) == 0 {
 		// the quorum gate: the master is dead, one replica of the published list is alive (replication stopped, so the
 		// zk-problems gate is open) and another answers the manager's pings with 1040 while its own mysync reports it healthy
 		in := mgrIn{Master: "h1", Iter: 4, Gap: 5, LockLostAt: -1, Active: []string{"h1", "h2", "h3"},
